@@ -239,11 +239,11 @@ theorem collapse_endpoints (l : List (Nat × Nat)) :
 
 /-! ### search_fragments: a generic invariant rule -/
 
-theorem searchAux_inv (M : Nat) (P : Frag → List STok → Prop)
+theorem searchAux_inv (mode M : Nat) (P : Frag → List STok → Prop)
     (hsafe : ∀ f t ts, P f (t :: ts) → ¬ t.to < f.start)
-    (hadd : ∀ f t ts, P f (t :: ts) → ¬ (t.to - f.start > M) → P (f.add t) ts)
-    (hcut : ∀ f t ts, P f (t :: ts) → t.to - f.start > M → P ((Frag.new t.from_).add t) ts) :
-    ∀ ts f, P f ts → ∃ frags, searchAux M f ts = some frags ∧ ∀ g ∈ frags, ∃ rest, P g rest := by
+    (hadd : ∀ f t ts, P f (t :: ts) → ¬ (t.to - f.start > M) → P (f.add mode t) ts)
+    (hcut : ∀ f t ts, P f (t :: ts) → t.to - f.start > M → P ((Frag.new t.from_).add mode t) ts) :
+    ∀ ts f, P f ts → ∃ frags, searchAux mode M f ts = some frags ∧ ∀ g ∈ frags, ∃ rest, P g rest := by
   intro ts
   induction ts with
   | nil =>
@@ -275,11 +275,11 @@ theorem searchAux_inv (M : Nat) (P : Frag → List STok → Prop)
 
 /-- the same rule, remembering *why* each fragment was closed: end of the stream, or a token
 that did not fit -/
-theorem searchAux_inv' (M : Nat) (P : Frag → List STok → Prop)
+theorem searchAux_inv' (mode M : Nat) (P : Frag → List STok → Prop)
     (hsafe : ∀ f t ts, P f (t :: ts) → ¬ t.to < f.start)
-    (hadd : ∀ f t ts, P f (t :: ts) → ¬ (t.to - f.start > M) → P (f.add t) ts)
-    (hcut : ∀ f t ts, P f (t :: ts) → t.to - f.start > M → P ((Frag.new t.from_).add t) ts) :
-    ∀ ts f, P f ts → ∃ frags, searchAux M f ts = some frags ∧
+    (hadd : ∀ f t ts, P f (t :: ts) → ¬ (t.to - f.start > M) → P (f.add mode t) ts)
+    (hcut : ∀ f t ts, P f (t :: ts) → t.to - f.start > M → P ((Frag.new t.from_).add mode t) ts) :
+    ∀ ts f, P f ts → ∃ frags, searchAux mode M f ts = some frags ∧
       ∀ g ∈ frags, P g [] ∨ ∃ t rest, P g (t :: rest) ∧ t.to - g.start > M := by
   intro ts
   induction ts with
